@@ -20,7 +20,7 @@ func init() {
 			"(or the pooled request handed out for exclusive use); the only writes to shared memory are the declared memo states — the storage's rule cache (keyed by the retrieved index), the rule's lazily compiled pattern and invalid flag, " +
 			"the file list's read position and buffer inside its retriever — each a deterministic function of immutable data. R2: every field of the pooled rules.Request is stored unconditionally between pool.Get and the first use, " +
 			"so nothing of the previous query survives. R3: no append/in-place operation on a slice that shares its backing array with caller- or engine-owned memory (capacity-capped reslices accepted). R4: the slices in returned results are fresh.",
-		Trusted: []string{"'no shared write other than a deterministic memo implies the answer is independent of the query history' (the argument is not re-proved)", "parameter freshness is the conjunction over all call sites inside the library; exported functions get non-fresh parameters"},
+		Trusted:     []string{"'no shared write other than a deterministic memo implies the answer is independent of the query history' (the argument is not re-proved)", "parameter freshness is the conjunction over all call sites inside the library; exported functions get non-fresh parameters"},
 		Assumptions: []string{"the equality of answers across histories is derived, never observed (no execution in this technique family)"},
 	})
 }
